@@ -21,6 +21,8 @@ package main
 //	`return f(..)` handing on all results of a call;
 //	identifiers compared with nil are nil-able without being listed in optVars
 //
+//	% on ints (Int.tmod); writes through maps shared with the caller (target option sharedMaps)
+//
 // The run-time conventions are those of lean/NotationModel/GoLite.lean.
 
 import (
@@ -68,6 +70,15 @@ type g2lTarget struct {
 	optFields  []string       // struct field names that hold nil-able values (pointers, nil-able slices)
 	outArgs    map[string]int // Go callee text -> index of the `&x` argument the call assigns
 	wrapErrors bool           // fmt.Errorf("..%w..", .., err) -> GoLite.wrapf (the kind of err is kept)
+	// sharedMaps: maps the CALLER shares with the function - "p" (a map parameter) or "p.F" (a map field of a
+	// struct parameter passed BY VALUE: the struct is the function's own copy, so its fields may be reassigned,
+	// but the map behind p.F at entry is the caller's object). Writes through such a map are translated, not
+	// refused: the translation keeps a ghost copy `<p_F>_caller` of the caller's map, applies every
+	// `p.F[k] = v` to it for as long as p.F has not been re-pointed to a map created in this function (run-time
+	// flag `<p_F>_aliased`), and returns the ghosts, in order, after the results (and captures). A tie theorem
+	// can then say what the function does to the caller's map. Re-pointing is accepted only to a value created
+	// in this function (a local holding one is treated as moved: later in-place updates through it are refused).
+	sharedMaps []string
 }
 
 type g2l struct {
@@ -79,9 +90,14 @@ type g2l struct {
 	// only these may be updated in place - anything else may alias memory the caller or another
 	// variable sees, which a value-semantics translation would silently lose
 	drop []string // dropCalls of the target + "<v>." for every local v := <dropped call>(..)
+	shared     map[string]bool // sharedMaps of the target, by exprText
+	valueRoots map[string]bool // struct parameters passed by value that have a shared map field
 	named      []string   // named results of the function, in order
 	namedTypes []ast.Expr // their types
 }
+
+// ghost names of a shared map path
+func g2lGhost(path string) string { return strings.ReplaceAll(path, ".", "_") }
 
 var leanReserved = map[string]bool{"end": true, "from": true, "at": true, "open": true, "then": true, "do": true, "fun": true,
 	"let": true, "have": true, "show": true, "match": true, "with": true, "in": true, "by": true, "at_": true, "if": true,
@@ -287,6 +303,8 @@ func (g *g2l) binary(x *ast.BinaryExpr) string {
 		return "(decide (" + g.expr(x.X) + " " + x.Op.String() + " " + g.expr(x.Y) + "))"
 	case token.ADD, token.SUB, token.MUL:
 		return "(" + g.expr(x.X) + " " + x.Op.String() + " " + g.expr(x.Y) + ")"
+	case token.REM:
+		return "(Int.tmod " + g.expr(x.X) + " " + g.expr(x.Y) + ")" // Go's % truncates towards zero
 	}
 	g.fail(x, "binary operator %s", x.Op)
 	return ""
@@ -618,6 +636,45 @@ func (g *g2l) assignTo(o *g2lOut, ind int, lhs ast.Expr, rhs string, define bool
 			g.fail(n, "in-place update through %s, which was not created in this function (it may alias memory other code sees)", root.Name)
 		}
 	}
+	if g.shared[exprText(lhs)] {
+		// re-pointing a shared map: from here on the function works on a map of its own
+		gh := g2lGhost(exprText(lhs))
+		switch l := lhs.(type) {
+		case *ast.Ident:
+			o.line(ind, g2lIdent(l.Name)+" := "+rhs)
+		case *ast.SelectorExpr:
+			r := g2lIdent(l.X.(*ast.Ident).Name)
+			o.line(ind, fmt.Sprintf("%s := { %s with %s := %s }", r, r, g2lIdent(l.Sel.Name), rhs))
+		}
+		o.line(ind, gh+"_aliased := false")
+		return
+	}
+	if ie, ok := lhs.(*ast.IndexExpr); ok && g.shared[exprText(ie.X)] {
+		// a write through a shared map: into the function's view of it, and - while it still is the caller's
+		// object - into the caller's map
+		gh := g2lGhost(exprText(ie.X))
+		k := g.expr(ie.Index)
+		switch b := ie.X.(type) {
+		case *ast.Ident:
+			r := g2lIdent(b.Name)
+			o.line(ind, fmt.Sprintf("%s := GoLite.Map.set %s %s %s", r, r, k, rhs))
+		case *ast.SelectorExpr:
+			r := g2lIdent(b.X.(*ast.Ident).Name)
+			f := g2lIdent(b.Sel.Name)
+			o.line(ind, fmt.Sprintf("%s := { %s with %s := GoLite.Map.set %s.%s %s %s }", r, r, f, r, f, k, rhs))
+		}
+		o.line(ind, fmt.Sprintf("if %s_aliased then", gh))
+		o.line(ind+1, fmt.Sprintf("%s_caller := GoLite.Map.set %s_caller %s %s", gh, gh, k, rhs))
+		return
+	}
+	if se, ok := lhs.(*ast.SelectorExpr); ok {
+		if root, ok := se.X.(*ast.Ident); ok && g.valueRoots[root.Name] {
+			// another field of a by-value struct parameter: the struct is this function's copy
+			r := g2lIdent(root.Name)
+			o.line(ind, fmt.Sprintf("%s := { %s with %s := %s }", r, r, g2lIdent(se.Sel.Name), rhs))
+			return
+		}
+	}
 	switch l := lhs.(type) {
 	case *ast.Ident:
 		if define && l.Name != "_" && !g.declared[l.Name] {
@@ -785,6 +842,15 @@ func (g *g2l) stmt(o *g2lOut, ind int, s ast.Stmt) {
 			g.assignTo(o, ind, x.Lhs[0], "r'", define, s)
 		case len(x.Lhs) == len(x.Rhs):
 			for i := range x.Lhs {
+				if g.shared[exprText(x.Lhs[i])] {
+					if id, ok := x.Rhs[i].(*ast.Ident); ok && g.owned[id.Name] {
+						g.owned[id.Name] = false // moved: the map now has two names
+					} else if !g2lCreates(x.Rhs[i]) {
+						g.fail(s, "shared map %s re-pointed to %s, which was not created in this function", exprText(x.Lhs[i]), exprText(x.Rhs[i]))
+					}
+					g.assignTo(o, ind, x.Lhs[i], g.valueFor(x.Lhs[i], x.Rhs[i]), false, s)
+					continue
+				}
 				if id, ok := x.Lhs[i].(*ast.Ident); ok {
 					g.owned[id.Name] = g2lCreates(x.Rhs[i])
 				}
@@ -932,6 +998,9 @@ func (g *g2l) stmt(o *g2lOut, ind int, s ast.Stmt) {
 		}
 		for _, c := range g.t.captures {
 			vs = append(vs, g2lIdent(c))
+		}
+		for _, p := range g.t.sharedMaps {
+			vs = append(vs, g2lGhost(p)+"_caller")
 		}
 		if len(vs) == 1 {
 			o.line(ind, "return "+vs[0])
@@ -1179,7 +1248,7 @@ func (g *g2l) switchStmt(o *g2lOut, ind int, x *ast.SwitchStmt) {
 func g2lTranslate(t *g2lTarget) string {
 	f := parseFile(t.file)
 	fd := mustFunc(f, t.file, t.recv, t.fn)
-	g := &g2l{t: t, opt: map[string]bool{}, pkgs: map[string]bool{}, owned: map[string]bool{}, declared: map[string]bool{}}
+	g := &g2l{t: t, opt: map[string]bool{}, pkgs: map[string]bool{}, owned: map[string]bool{}, declared: map[string]bool{}, shared: map[string]bool{}, valueRoots: map[string]bool{}}
 	for _, im := range f.Imports {
 		p, _ := strconv.Unquote(im.Path.Value)
 		n := p[strings.LastIndex(p, "/")+1:]
@@ -1345,6 +1414,23 @@ func g2lTranslate(t *g2lTarget) string {
 	for _, c := range t.captures {
 		o.line(1, "let mut "+g2lIdent(c)+" := "+g2lIdent(c))
 	}
+	for _, p := range t.sharedMaps {
+		root := p
+		if i := strings.Index(p, "."); i >= 0 {
+			root = p[:i]
+			if strings.Contains(p[i+1:], ".") {
+				fail("go2lean %s.%s: shared map %s: only p or p.F", t.recv, t.fn, p)
+			}
+			g.valueRoots[root] = true
+		}
+		if !g.declared[root] {
+			g.declared[root] = true
+			o.line(1, "let mut "+g2lIdent(root)+" := "+g2lIdent(root))
+		}
+		g.shared[p] = true
+		o.line(1, "let mut "+g2lGhost(p)+"_caller := "+p)
+		o.line(1, "let mut "+g2lGhost(p)+"_aliased := true")
+	}
 	for i, n := range g.named {
 		g.declared[n] = true
 		g.owned[n] = true
@@ -1369,7 +1455,7 @@ func g2lTranslate(t *g2lTarget) string {
 func g2lDecls(file string, names []string) string {
 	f := parseFile(file)
 	t := &g2lTarget{file: file, fn: "(package-level declarations)"}
-	g := &g2l{t: t, opt: map[string]bool{}, pkgs: map[string]bool{}, owned: map[string]bool{}, declared: map[string]bool{}}
+	g := &g2l{t: t, opt: map[string]bool{}, pkgs: map[string]bool{}, owned: map[string]bool{}, declared: map[string]bool{}, shared: map[string]bool{}, valueRoots: map[string]bool{}}
 	for _, im := range f.Imports {
 		p, _ := strconv.Unquote(im.Path.Value)
 		n := p[strings.LastIndex(p, "/")+1:]
